@@ -13,6 +13,8 @@ type Family struct {
 	Run func(t *testing.T, rc *core.RunCtx)
 	// Subtest: wrap each run in t.Run (race-detector families).
 	Subtest bool
+	// Post runs after the run (and its subtest) has ended.
+	Post func(rc *core.RunCtx)
 }
 
 // Families is the registry, filled by init functions.
